@@ -211,12 +211,22 @@ sb_error_t sb_trajectory_init_from_builder(
 {
     uint8_t* buf = SB_BUFFER(builder->buffer);
     uint8_t header = buf[0];
+    sb_buffer_t new_buffer;
+    sb_error_t retval;
 
-    SB_CHECK(sb_trajectory_init_from_bytes(trajectory, buf, sb_buffer_size(&builder->buffer)));
+    /* allocate the new buffer of the builder first so nothing can fail after
+     * the trajectory has taken ownership of the old one */
+    SB_CHECK(sb_buffer_init(&new_buffer, HEADER_LENGTH));
+
+    retval = sb_trajectory_init_from_bytes(trajectory, buf, sb_buffer_size(&builder->buffer));
+    if (retval != SB_SUCCESS) {
+        sb_buffer_destroy(&new_buffer);
+        return retval;
+    }
 
     /* ownership of the memory buffer now belongs to the trajectory so we can
      * re-initialize the builder */
-    SB_CHECK(sb_buffer_init(&builder->buffer, HEADER_LENGTH));
+    builder->buffer = new_buffer;
     buf = SB_BUFFER(builder->buffer);
     buf[0] = header;
 
